@@ -219,7 +219,7 @@ FAMILIES = [
            [(f'x{i}', 'int') for i in range(4)] + [(f'r{i}', 'int') for i in range(9)] + [(f'c{i}', 'int') for i in range(6)],
            lambda tier, seed: [(k, n, e) for k in ('reshuffle', 'reshuffle_map', 'local', 'reshuffle_pf1', 'reshuffle_filter', 'frozen') for n in (0, 1, 2, 3)
                                for e in ((1, 2) if k != 'frozen' else (1,)) if n * e <= (4 if tier == 'quick' else 6)],
-           timeout=dict(quick=60, thorough=300), desc='items() of reshuffled / locally shuffled / prefetched datasets pairs each example with its own key; frozen snapshots stay aligned'),
-    Family('keys', body_keys, ['n', 'ops', 'warm'], U.POOL_PARAMS, conditions, timeout=dict(quick=60, thorough=300),
+           timeout=dict(quick=150, thorough=300), desc='items() of reshuffled / locally shuffled / prefetched datasets pairs each example with its own key; frozen snapshots stay aligned'),
+    Family('keys', body_keys, ['n', 'ops', 'warm'], U.POOL_PARAMS, conditions, timeout=dict(quick=150, thorough=300),
            desc='keys()/items() aligned with iteration; ds[key] returns the example of that key; absent or removed keys raise'),
 ]
